@@ -1,4 +1,5 @@
 import RlibModel.Model.Writer
+import RlibModel.Model.IoRoundTrip
 /-!
 Line-protocol driver for engine `writer` (property C09).
 
@@ -16,6 +17,16 @@ Case line:  `w buf=<BUF> dbg=<0|1|*> k=<n> j=<n> rt=<0|1> rc=<n> ; op ; op ; …
 
 Answer: `M <view> fl=<flushes> | V <view> | S <view according to the spec>` with
 `view = obs=[len:fnv,…] drop=len:fnv[:hex] fmt=ok rt=ok|na|bad`.
+
+Second line kind (C09 bridge, `Model/IoRoundTrip.lean`): write → drop → **Reader model** → values.
+  `r buf=<BUF> dbg=<0|1|*> rbuf=<reader BUF> rc=<n> alt=<0|1> ; op ; op ; …`   (same ops)
+runs the Writer model, hands `(drop s).sink` to the Reader model (`Reader.runScript` on `Reader.init rbuf src`,
+`src` = the harness source for `rc`: chunks of `rc` bytes, every 3rd `read` call `Interrupted` when `rc` is odd) and
+prints the values read back by the harness's read plan (`IoRT.planOps alt`):
+  `M rb drop=len:fnv vals=<v>,<v>,…,eof=true | V <same> | S rb drop=… vals=<the values written>,eof=true`
+with `<v>` = decimal integer, `s:<hex>` string, `c:<hex>` char, `(…)` tuple read, `[…]` `read_vec`.
+Scripts outside the read-back domain (`IoRT.eligible`, characters ≥ 128, `buf < 39`) answer `INVALID`.
+`Props/C09.lean: readback_driver` proves `M = S` for every in-domain `r` line.
 -/
 open Rlib Rlib.Decimal Rlib.Writer
 
@@ -234,4 +245,67 @@ def handle (line : String) : String :=
         answer3 s!"{v} fl={fl}" v sview
     | _, _ => "M INVALID | V INVALID | S any"
 
-def main : IO Unit := driverMain handle
+/-! ### `r` lines: write, drop, read back through the Reader model -/
+
+structure RHdr where
+  buf : Nat
+  dbg : Bool
+  rbuf : Nat
+  rc : Nat
+  alt : Bool
+
+def parseRHdr (s : String) : Option RHdr :=
+  match tokens s with
+  | "r" :: fs =>
+    match (hdrField fs "buf").bind parseNat?, hdrField fs "dbg", (hdrField fs "rbuf").bind parseNat?,
+        (hdrField fs "rc").bind parseNat?, hdrField fs "alt" with
+    | some buf, some d, some rbuf, some rc, some alt =>
+      if (d = "0" ∨ d = "1" ∨ d = "*") ∧ (alt = "0" ∨ alt = "1") then some ⟨buf, d = "1", rbuf, rc, alt = "1"⟩ else none
+    | _, _, _, _, _ => none
+  | _ => none
+
+def showRVal : Reader.Val → String
+  | .int v => toString v
+  | .str bs => "s:" ++ String.join (bs.map (fun b => toHex b.toNat 2))
+  | .chr c => "c:" ++ toHex c.toNat 2
+
+def showRTuple (vs : List Reader.Val) : String := "(" ++ ",".intercalate (vs.map showRVal) ++ ")"
+
+def showROut : Reader.Out → String
+  | .val v => showRVal v
+  | .tup vs => showRTuple vs
+  | .vec rows => "[" ++ ",".intercalate (rows.map (fun r => match r with
+      | [v] => showRVal v
+      | vs => showRTuple vs)) ++ "]"
+  | .bool b => "eof=" ++ showBool b
+  | .line _ => "line"
+  | .lines _ => "lines"
+
+def showRRes : Reader.Res → String
+  | .out o => showROut o
+  | .panic e => e.toString
+  | .undef => "undef"
+
+def showRs (rs : List Reader.Res) : String := ",".intercalate (rs.map showRRes)
+
+def handleR (line : String) : String :=
+  match splitOps line with
+  | [] => badLine line
+  | hdr :: opss =>
+    match parseRHdr hdr, (opss.filter (· ≠ "")).mapM parseOp with
+    | some h, some ops =>
+      let inDom := decide (39 ≤ h.buf) && decide (0 < h.rbuf) && ops.all opInDomain && Op.validAll ops && IoRT.eligible ops
+      if !inDom then "M INVALID | V INVALID | S any" else
+      let c : Cfg := ⟨h.buf, h.dbg⟩
+      let sview := s!"rb drop={obsStr (specOps ops)} vals={showRs (IoRT.expected (IoRT.planOps h.alt ops))}"
+      match runOps c ops WState.init with
+      | .error e => answer e.toString sview
+      | .ok s =>
+        let sink := (drop s).sink
+        answer s!"rb drop={obsStr sink} vals={showRs (IoRT.readBack h.rbuf h.rc h.alt ops (txt sink))}" sview
+    | _, _ => "M INVALID | V INVALID | S any"
+
+def handleAny (line : String) : String :=
+  if line.startsWith "r " then handleR line else handle line
+
+def main : IO Unit := driverMain handleAny
